@@ -15,6 +15,10 @@ QUANT_OPS = ['\\A', 'forall', '\\E', 'exists']
 UN_OPS = ['not', '~', '!']
 
 
+CLEARING = {'gc', 'gc_roots', 'swap', 'reorder', 'sift', 'pairs',
+            'undeclare'}
+
+
 def pick_ref(tr, rng):
     """A reference to an existing held node, of either sign, or a constant."""
     held = tr.held()
@@ -34,6 +38,8 @@ def random_history(tid, seed, nvars, steps, max_held=8, profile='core'):
     recent = []   # (op, args) of earlier calls, re-issued after cache clears
     for _ in range(steps):
         held = tr.held()
+        keys = tr.cache_keys()
+        n_ev = len(tr.events)
         c = rng.random()
         if len(held) > max_held:
             c = 0.62 + 0.1 * rng.random()
@@ -93,6 +99,8 @@ def random_history(tid, seed, nvars, steps, max_held=8, profile='core'):
                 tr.incref(rng.choice(held) * rng.choice([1, -1]))
         elif c < 0.86:
             tr.gc()
+            tr.cache_witness(keys)
+            keys = None
             # after a cache-clearing action re-issue earlier calls whose
             # operand nodes still exist (stale-result detection)
             for op, args in rng.sample(recent, min(2, len(recent))):
@@ -134,6 +142,9 @@ def random_history(tid, seed, nvars, steps, max_held=8, profile='core'):
                 x, y = rng.sample(names, 2)
                 tr.pairs({x: y})
         recent = recent[-12:]
+        if keys and tr.events[-1]['op'] in CLEARING \
+                and len(tr.events) == n_ev + 1:
+            tr.cache_witness(keys)
     return tr
 
 
